@@ -148,7 +148,9 @@ def gen_module(rng, modname, with_async_gen=False):
                "    @property\n    def prop(self):\n" + enter_line("K.prop", ["self"], "        ") + "        return _r.ret(_t, 3)\n\n"
                "    def over(self, x):\n" + enter_line("K.over", ["self", "x"], "        ") + "        return _r.ret(_t, super().over(x))\n\n"
                "    def gmeth(self, n):\n" + enter_line("K.gmeth", ["self", "n"], "        ") +
-               "        for i in range(n):\n            yield _r.yielded(_t, (i, self))\n        return _r.ret(_t, n)\n\n")
+               "        for i in range(n):\n            yield _r.yielded(_t, (i, self))\n        return _r.ret(_t, n)\n\n"
+               "    async def ameth(self, x, *, y=None):\n" + enter_line("K.ameth", ["self", "x", "y"], "        ") +
+               "        z = await _r.Suspend()\n        return _r.ret(_t, [x, z])\n\n")
     funcs += [
         {"qual": "K.meth", "call": "K().meth", "kind": "method", "mk": mk, "exit": "expr", "params": ["self"] + names},
         {"qual": "K.cmeth", "call": "K.cmeth", "kind": "classmethod", "mk": mk, "exit": "const", "params": ["cls"] + names},
@@ -157,6 +159,8 @@ def gen_module(rng, modname, with_async_gen=False):
         {"qual": "Base.inherited", "call": "K().inherited", "kind": "method", "mk": PARAM_SHAPES[0][2], "exit": "expr", "params": ["self", "x"]},
         {"qual": "K.over", "call": "K().over", "kind": "method", "mk": PARAM_SHAPES[0][2], "exit": "expr", "params": ["self", "x"]},
         {"qual": "K.gmeth", "call": "K().gmeth", "kind": "generator", "mk": lambda v: ((v.rng.randrange(0, 3),), {}), "exit": "gen", "params": ["self", "n"]},
+        {"qual": "K.ameth", "call": "K().ameth", "kind": "coroutine", "mk": lambda v: ((v(),), {"y": v()} if v.rng.random() < 0.5 else {}),
+         "exit": "coro", "params": ["self", "x", "y"]},
     ]
     return "".join(src), funcs
 
